@@ -354,6 +354,34 @@ func JudgeC05(sc *Scenario, tr *Transcript) *Verdict {
 					vd.add("C05/move-start/marked-without-destination", "replica %d: target %d was marked in_transfer on shard %d but no in-sync shard holds it in normal state after the cycle", ri, h, s)
 				}
 			}
+			// a duplicate is given up the same way: a copy in normal state goes only when another in-sync shard reports the
+			// target with three scrapes (otherwise nobody may have scraped it for a while once the copy is gone)
+			for s := 0; s < v.N; s++ {
+				if !v.InSync[s] {
+					continue
+				}
+				held, ok := v.Removed[s][h]
+				if !ok || held.State != "" {
+					continue
+				}
+				best := int64(-1)
+				for d := 0; d < v.N; d++ {
+					if d == s || !v.InSync[d] {
+						continue
+					}
+					if r, ok := v.Report[d][h]; ok && int64(r.Times) > best {
+						best = int64(r.Times)
+					}
+				}
+				if best < 0 {
+					continue // nobody else reports it: an orphaning, judged by C01
+				}
+				vd.NonTrivial = true
+				vd.class(fmt.Sprintf("duplicate-end/other=%d", minI(best, 4)))
+				if best < handOverScrapes {
+					vd.add("C05/duplicate-end/other-copy-scrapes", "replica %d: the normal copy of target %d was removed from shard %d although the best other copy has only %d scrapes (< %d)", ri, h, s, best, handOverScrapes)
+				}
+			}
 			// move end
 			for s := 0; s < v.N; s++ {
 				if !v.InSync[s] {
